@@ -138,6 +138,9 @@ func c06Worker(sh *explore.Shard) {
 		panic(err)
 	}
 	var idx int64
+	// the match relation first: the sequence enumeration below is the part that
+	// the thorough tier's time budget may cut short
+	c06Matcher(sh, forest, &idx)
 	seq := make([]int, 0, maxLen)
 	var rec func()
 	check := func() {
@@ -197,7 +200,6 @@ func c06Worker(sh *explore.Shard) {
 		}
 	}
 	rec()
-	c06Matcher(sh, forest, &idx)
 	sh.C.Add("option_alphabet", 0)
 	if sh.I == 0 {
 		sh.C.Add("option_alphabet", int64(len(opts)))
